@@ -607,11 +607,11 @@ Definition byt (t : nat) (x : nat * N) : bool := Nat.eqb (fst x) t.
 
 Lemma filter_snoc_ne t t2 v (l : list (nat * N)) : t <> t2 -> filter (byt t2) (l ++ [(t, v)]) = filter (byt t2) l.
 Proof.
-  intros H. rewrite filter_app. cbn [filter byt fst]. destruct (Nat.eqb_spec t t2); [contradiction|apply app_nil_r].
+  intros H. rewrite filter_app. unfold byt. cbn [filter fst]. destruct (Nat.eqb_spec t t2); [contradiction|apply app_nil_r].
 Qed.
 
 Lemma filter_snoc_eq t v (l : list (nat * N)) : filter (byt t) (l ++ [(t, v)]) = filter (byt t) l ++ [(t, v)].
-Proof. rewrite filter_app. cbn [filter byt fst]. rewrite Nat.eqb_refl. reflexivity. Qed.
+Proof. rewrite filter_app. unfold byt. cbn [filter fst]. rewrite Nat.eqb_refl. reflexivity. Qed.
 
 Lemma firstn_exact {A} (a b : list A) : firstn (length a) (a ++ b) = a.
 Proof. induction a as [|x a IH]; cbn; [destruct b; reflexivity|rewrite IH; reflexivity]. Qed.
@@ -702,12 +702,195 @@ Section Hist.
     all: try solve [
       repeat match type of Hstep with context [if ?c then _ else _] => destruct c end;
       injection Hstep as <- <-; hupd th Hth;
-      constructor; [exact A | exact B | exact C | exact I] ].
-    all: try solve [
-      repeat match type of Hstep with context [if ?c then _ else _] => destruct c end;
-      injection Hstep as <- <-; hupd th Hth;
-      (eapply hist_fin; [apply Hp || (destruct Hp as (v0 & Hp); exact Hp) | exact Hh | rewrite Hpc; reflexivity
-                        | rewrite Hpc; intros; reflexivity]) ].
-    Show.
-  Abort.
+      (constructor; [exact A | exact B | exact C | exact I]) ].
+    - (* LIdle *)
+      destruct (lt_ops th) as [|o rest] eqn:Hops; [discriminate|]. injection Hstep as <- <-.
+      hupd th Hth. constructor; cbn [lt_out lt_cur lt_ops lt_pc].
+      + rewrite <- A, Hp. cbn [curl app]. reflexivity.
+      + destruct o; exact B.
+      + destruct o; exact C.
+      + destruct o; exact I.
+    - (* QeCasLink *)
+      destruct Hp as (v0 & Hc & (Hn1 & Hn2 & Hn3 & Hn4) & Hi).
+      destruct (N.eqb_spec (n_next (hget (s_heap s) tl)) 0) as [Hz|Hnz]; injection Hstep as <- <-.
+      + rewrite Hn4. cbn [n_val].
+        eapply hinv_update with (th := th);
+          [eassumption | exact Hth | reflexivity | right; exists v0; split; [reflexivity|eapply cur_P; eauto]
+          | left; reflexivity | ].
+        cbn [g_enq g_deq]. constructor; cbn [lgoto lt_out lt_cur lt_ops lt_pc].
+        * exact A.
+        * rewrite filter_snoc_eq, map_app, B, Hc. cbn [pend_e map snd]. rewrite app_nil_r. reflexivity.
+        * exact C.
+        * exact I.
+      + hupd th Hth. constructor; [exact A | exact B | exact C | exact I].
+    - (* QeHzClr *)
+      destruct Hp as (v0 & Hc). injection Hstep as <- <-. hupd th Hth.
+      eapply hist_fin; [exact Hc | exact Hh | rewrite Hpc; reflexivity | rewrite Hpc; intros; reflexivity].
+    - (* QdHz1 *)
+      destruct Hp as (Hc & _).
+      destruct (N.eqb_spec nx 0) as [Hz|Hnz]; [|destruct (hd =? tl)]; injection Hstep as <- <-; hupd th Hth.
+      + eapply hist_fin; [exact Hc | exact Hh | rewrite Hpc; reflexivity | rewrite Hpc; intros; reflexivity].
+      + constructor; [exact A | exact B | exact C | exact I].
+      + constructor; [exact A | exact B | exact C | exact I].
+    - (* QdCasHead *)
+      destruct Hp as (Hc & Hb & Hnz & Hn & HiL & Hpv).
+      destruct (N.eqb_spec (s_head s) hd) as [He|Hne]; injection Hstep as <- <-.
+      + rewrite <- He in Hn. destruct (head_succ _ _ _ _ _ _ _ G nx Hn Hnz) as [_ H2].
+        assert (HPp : P p).
+        { rewrite Hpv. rewrite Forall_forall in HF. apply HF. eapply nth_error_In; eauto. }
+        eapply hinv_update with (th := th);
+          [eassumption | exact Hth | reflexivity | left; reflexivity | right; exists p; reflexivity | ].
+        cbn [g_enq g_deq]. constructor; cbn [lgoto lt_out lt_cur lt_ops lt_pc].
+        * exact A.
+        * exact B.
+        * intros HPz. rewrite filter_snoc_eq, map_app, (C HPz). cbn [pend_d map snd]. rewrite app_nil_r. reflexivity.
+        * exact HPp.
+      + hupd th Hth. constructor; [exact A | exact B | exact C | exact I].
+    - (* QdRel *)
+      injection Hstep as <- <-. hupd th Hth.
+      eapply hist_fin; [exact Hp | exact Hh | rewrite Hpc; reflexivity | rewrite Hpc].
+      intros HPz HPp. cbn [relp] in HPp. apply HPz in HPp. cbn [deq_results pend_d].
+      destruct (N.eqb_spec p 0); [contradiction|reflexivity].
+    - (* QmChk *)
+      destruct Hp as (Hc & _).
+      destruct (hd =? s_head s); [destruct ((hd =? tl) && (nx =? 0))|]; injection Hstep as <- <-; hupd th Hth.
+      + eapply hist_fin; [exact Hc | exact Hh | rewrite Hpc; reflexivity | rewrite Hpc; intros; reflexivity].
+      + eapply hist_fin; [exact Hc | exact Hh | rewrite Hpc; reflexivity | rewrite Hpc; intros; reflexivity].
+      + constructor; [exact A | exact B | exact C | exact I].
+  Qed.
 End Hist.
+
+Lemma hinv_init P progs : hinv P progs (linit progs).
+Proof.
+  split; [|split]; cbn [linit s_thr g_enq g_deq].
+  - constructor.
+  - reflexivity.
+  - intros t th Hn. rewrite nth_error_map in Hn. destruct (nth_error progs t) as [p|] eqn:Hp; [|discriminate].
+    injection Hn as <-. constructor; cbn [lt_out lt_cur lt_ops lt_pc]; try reflexivity.
+    cbn. symmetry. apply nth_error_nth. exact Hp.
+Qed.
+
+Lemma run_hinv (P : N -> Prop) progs (HP : forall ops v, In ops progs -> In (LEnq v) ops -> P v) sched :
+  forall s L, Inv s L -> hinv P progs s -> hinv P progs (lrun s sched).
+Proof.
+  induction sched as [|t sched IH]; intros s L HI HH.
+  - exact HH.
+  - cbn [lrun fold_left]. change (hinv P progs (lrun (lstep' s t) sched)).
+    unfold lstep'. destruct (lstep s t) as [[s' r]|] eqn:Hs.
+    + destruct (step_inv _ _ _ _ _ HI Hs) as [L' HI']. eapply IH; [exact HI'|]. exact (hstep P progs HP s t s' r L HI HH Hs).
+    + eapply IH; eauto.
+Qed.
+
+Lemma reach_hinv (P : N -> Prop) progs (HP : forall ops v, In ops progs -> In (LEnq v) ops -> P v) sched :
+  hinv P progs (lrun (linit progs) sched).
+Proof. eapply run_hinv; [exact HP|apply inv_init|apply hinv_init]. Qed.
+
+Lemma pend_prefix pc cur : pend_e pc cur = [] \/ pend_e pc cur = enq_vals (curl cur).
+Proof. destruct pc; cbn [pend_e]; auto; destruct cur as [[v| |]|]; cbn; auto. Qed.
+
+(* ------------------------------------------------------------------ T4 *)
+Theorem lfq_per_producer_fifo progs sched :
+  let s := lrun (linit progs) sched in
+  forall p, exists k,
+    map snd (filter (fun x => Nat.eqb (fst x) p) (g_enq s)) = firstn k (enq_vals (nth p progs [])).
+Proof.
+  intros s p.
+  assert (HH : hinv (fun _ => True) progs s) by (apply reach_hinv; auto).
+  destruct HH as (_ & HN & HT). change (fun x : nat * N => Nat.eqb (fst x) p) with (byt p).
+  destruct (nth_error (s_thr s) p) as [th|] eqn:Hth.
+  - destruct (HT p th Hth) as [A B _ _]. rewrite <- A, B, !enq_vals_app.
+    destruct (pend_prefix (lt_pc th) (lt_cur th)) as [H|H]; rewrite H.
+    + exists (length (enq_vals (map fst (lt_out th)))). rewrite app_nil_r, firstn_exact. reflexivity.
+    + exists (length (enq_vals (map fst (lt_out th)) ++ enq_vals (curl (lt_cur th)))).
+      rewrite app_assoc, firstn_exact. reflexivity.
+  - exists O. rewrite (HN p Hth). reflexivity.
+Qed.
+
+(* ------------------------------------------------------------------ T5 *)
+Theorem lfq_consumer_results progs sched :
+  (forall ops v, In ops progs -> In (LEnq v) ops -> v <> 0) ->
+  let s := lrun (linit progs) sched in
+  forall c th, nth_error (s_thr s) c = Some th ->
+    exists pending,
+      deq_results (lt_out th) ++ pending = map snd (filter (fun x => Nat.eqb (fst x) c) (g_deq s)) /\
+      (length pending <= 1)%nat.
+Proof.
+  intros Hnz s c th Hth.
+  assert (HH : hinv (fun v => v <> 0) progs s) by (apply reach_hinv; exact Hnz).
+  destruct HH as (_ & _ & HT). change (fun x : nat * N => Nat.eqb (fst x) c) with (byt c).
+  destruct (HT c th Hth) as [_ _ C _]. exists (pend_d (lt_pc th)). split.
+  - symmetry. apply C. auto.
+  - destruct (lt_pc th); cbn [pend_d length]; lia.
+Qed.
+
+(* ------------------------------------------------------------------ Examples *)
+Definition ex_progs : list (list lop) := [[LEnq 5; LEnq 6]; [LEnq 7]; [LDeq; LDeq]; [LDeq]].
+Definition ex_sched : list nat :=
+  ([0;1;0;1;0;1;0;1;0;1;0;1;0;1;0;1;0;1;0;1;0;1;0;1;0;1;0;1;0;1;0;1;0;1;0;1;0;1;0;1;0;1;0;1;0;1;0;1;
+   2;3;2;3;2;3;2;3;2;3;2;3;2;3;2;3;2;3;2;3;2;3;2;3;2;3;2;3;2;3;2;3;2;3;2;3;2;3;2;3;2;3;2;3;2;3])%nat.
+
+(* 2 producers, 2 consumers, interleaved: dequeue order = link order *)
+Example ex_run :
+  let s := lrun (linit ex_progs) ex_sched in
+  g_enq s = [(0%nat, 5); (1%nat, 7); (0%nat, 6)] /\ g_deq s = [(2%nat, 5); (3%nat, 7)] /\
+  map lt_out (s_thr s) = [[(LEnq 5, LInt 0); (LEnq 6, LInt 0)]; [(LEnq 7, LInt 0)]; [(LDeq, LPtr 5)]; [(LDeq, LPtr 7)]].
+Proof. vm_compute. repeat split. Qed.
+
+(* empty() returns 1 with ghost g = 1: the element linked before the test was dequeued before it *)
+Definition ex2_progs : list (list lop) := [[LEnq 5]; [LDeq]; [LEmp]].
+Definition ex2_sched : list nat := (repeat 0 9 ++ repeat 1 10 ++ repeat 2 5)%nat.
+Example ex_empty :
+  let s := lrun (linit ex2_progs) ex2_sched in
+  pc_of s 2 = QmChk 2 2 0 1 /\ option_map snd (lstep s 2) = Some (Some (LInt 1)) /\ length (g_deq s) = 1%nat.
+Proof. vm_compute. repeat split. Qed.
+
+(* a dequeue about to read head->next = NULL: everything linked (nothing) has been dequeued *)
+Example ex_deq_null :
+  let s := lrun (linit [[LDeq]]) [0; 0; 0; 0; 0]%nat in
+  pc_of s 0 = QdLdNext 1 1 /\ n_next (hget (s_heap s) 1) = 0 /\ g_enq s = [] /\ g_deq s = [].
+Proof. vm_compute. repeat split. Qed.
+
+(* ------------------------------------------------------------------ T6 *)
+Local Notation cnt th :=
+  (length (filter (fun x : lop * lres => match fst x with LEnq _ => true | _ => false end) (lt_out th))).
+
+Lemma cnt_enq (out : list (lop * lres)) :
+  length (filter (fun x : lop * lres => match fst x with LEnq _ => true | _ => false end) out)
+  = length (enq_vals (map fst out)).
+Proof.
+  induction out as [|[o r] out IH]; [reflexivity|].
+  cbn [filter map fst enq_vals]. destruct o; cbn [length]; rewrite ?IH; reflexivity.
+Qed.
+
+Lemma filter_split k (E : list (nat * N)) :
+  (length (filter (byt k) E) + length (filter (fun x => Nat.leb (S k) (fst x)) E)
+   = length (filter (fun x => Nat.leb k (fst x)) E))%nat.
+Proof.
+  unfold byt. induction E as [|[a v] E IH]; [reflexivity|]. cbn [filter fst].
+  destruct (Nat.eqb_spec a k), (Nat.leb_spec (S k) a), (Nat.leb_spec k a); cbn [length]; lia.
+Qed.
+
+Lemma filter_len_le {A} (f : A -> bool) (l : list A) : (length (filter f l) <= length l)%nat.
+Proof. induction l as [|a l IH]; cbn [filter length]; [lia|]. destruct (f a); cbn [length]; lia. Qed.
+
+Lemma sum_le (E : list (nat * N)) : forall (l : list lthread) k,
+  (forall i th, nth_error l i = Some th -> (cnt th <= length (filter (byt (k + i)) E))%nat) ->
+  (fold_right (fun th acc => (cnt th + acc)%nat) O l <= length (filter (fun x => Nat.leb k (fst x)) E))%nat.
+Proof.
+  induction l as [|th l IH]; intros k H; cbn [fold_right]; [lia|].
+  pose proof (H O th eq_refl) as H0. rewrite Nat.add_0_r in H0.
+  assert (H1 : forall i th', nth_error l i = Some th' -> (cnt th' <= length (filter (byt (S k + i)) E))%nat).
+  { intros i th' Hn. pose proof (H (S i) th' Hn) as H2. rewrite Nat.add_succ_r in H2. exact H2. }
+  pose proof (IH (S k) H1). pose proof (filter_split k E). lia.
+Qed.
+
+Theorem completed_le_linked progs sched :
+  let s := lrun (linit progs) sched in (completed_enq s <= length (g_enq s))%nat.
+Proof.
+  intros s.
+  assert (HH : hinv (fun _ => True) progs s) by (apply reach_hinv; auto).
+  destruct HH as (_ & _ & HT). unfold completed_enq.
+  eapply Nat.le_trans; [apply (sum_le (g_enq s) (s_thr s) O)|apply filter_len_le].
+  intros i th Hn. destruct (HT i th Hn) as [_ B _ _]. rewrite cnt_enq. cbn [Nat.add].
+  rewrite <- (map_length snd (filter (byt i) (g_enq s))), B, app_length. lia.
+Qed.
